@@ -145,6 +145,9 @@ pub enum Op {
 #[derive(Clone, Debug, Serialize, Deserialize, PartialEq)]
 pub struct MCase {
     pub flavour: Flavour,
+    /// weights of additional voters / group members that never act (groups larger than one page)
+    #[serde(default)]
+    pub silent: Vec<u64>,
     pub voters: Vec<(u8, u64)>,
     pub thr: ThrSpec,
     pub period: Dur,
@@ -260,7 +263,7 @@ fn op(prop: &str) -> BoxedStrategy<Op> {
     let fund = (0u32..200).prop_map(|amt| Op::Fund { amt }).boxed();
     let fund_dep = (0u32..60).prop_map(|amt| Op::FundDeposit { amt }).boxed();
     match prop {
-        "C03" => prop_oneof![6 => propose, 14 => vote, 4 => execute, 4 => close, 3 => advance, 4 => to_expiry].boxed(),
+        "C03" => prop_oneof![6 => propose, 14 => vote, 4 => execute, 4 => close, 3 => advance, 4 => to_expiry, 2 => group].boxed(),
         "C05" => prop_oneof![6 => propose, 10 => vote, 9 => execute, 4 => close, 2 => advance, 3 => to_expiry, 3 => fault, 2 => fund, 2 => group].boxed(),
         "C06" => prop_oneof![6 => propose, 12 => vote, 2 => execute, 1 => close, 4 => advance, 2 => to_expiry, 8 => group].boxed(),
         _ => prop_oneof![8 => propose, 10 => vote, 6 => execute, 6 => close, 2 => advance, 4 => to_expiry, 1 => fund_dep].boxed(),
@@ -321,9 +324,10 @@ pub fn mcase_strategy(prop: &str, tier: Tier) -> BoxedStrategy<MCase> {
             // dispatch fails while the fault switch is on, then the same proposal is retried
             let retry = (any::<u16>(), by_member()).prop_map(|(k, by)| vec![Op::Fault { on: true }, Op::Execute { by, prop: Target::Apt(k) }, Op::Fault { on: false }, Op::Execute { by, prop: Target::Apt(k) }]).boxed();
             let groups = if prop_s == "C05" { prop_oneof![12 => single, 3 => campaign, 2 => retry].boxed() } else { prop_oneof![12 => single, 3 => campaign].boxed() };
-            (Just(fl), voters(&prop_s, fixed), thr_spec(), dur(), proptest::collection::vec(groups, 0..max_ops).prop_map(|g| g.into_iter().flatten().collect::<Vec<_>>()))
+            let silent = prop_oneof![5 => Just(vec![]), 1 => proptest::collection::vec(weight(), 1..4), 2 => proptest::collection::vec(weight(), 4..12)];
+            (Just(fl), voters(&prop_s, fixed), silent, thr_spec(), dur(), proptest::collection::vec(groups, 0..max_ops).prop_map(|g| g.into_iter().flatten().collect::<Vec<_>>()))
         })
-        .prop_map(|(flavour, voters, thr, period, ops)| MCase { flavour, voters, thr, period, ops })
+        .prop_map(|(flavour, voters, silent, thr, period, ops)| MCase { flavour, silent, voters, thr, period, ops })
         .boxed()
 }
 
@@ -459,6 +463,8 @@ struct PModel {
     deposit_returned: bool,
     failed_execute_seen: bool,
     retried_ok: bool,
+    /// an Execute call targeting this proposal has returned success (whatever the status says afterwards)
+    execute_succeeded: bool,
 }
 
 impl World {
@@ -629,14 +635,15 @@ pub fn run_mcase(prop: &str, case: &MCase, ctx: &mut CaseCtx) -> Result<(), Viol
     };
 
     // ---- voters / group
+    let silent_addrs: Vec<Addr> = (0..case.silent.len()).map(|i| app.api().addr_make(&format!("silent{i}"))).collect();
     let total_hint: Option<u64> = if fixed {
-        case.voters.iter().try_fold(0u64, |s, (_, w)| s.checked_add(*w))
+        case.voters.iter().map(|(_, w)| *w).chain(case.silent.iter().cloned()).try_fold(0u64, |s, w| s.checked_add(w))
     } else {
         let mut m = BTreeMap::new();
         for (i, w) in &case.voters {
             m.insert(*i as usize % N_ACTORS, *w);
         }
-        m.values().try_fold(0u64, |s, w| s.checked_add(*w))
+        m.values().cloned().chain(case.silent.iter().cloned()).try_fold(0u64, |s, w| s.checked_add(w))
     };
     let thr = resolve_thr(case.thr, total_hint.unwrap_or(u64::MAX));
     let period = match case.period {
@@ -648,7 +655,7 @@ pub fn run_mcase(prop: &str, case: &MCase, ctx: &mut CaseCtx) -> Result<(), Viol
     let multisig = if fixed {
         let code = app.store_code(fixed_contract());
         let msg = cw3_fixed_multisig::msg::InstantiateMsg {
-            voters: case.voters.iter().map(|(i, w)| cw3_fixed_multisig::msg::Voter { addr: actors[*i as usize % N_ACTORS].to_string(), weight: *w }).collect(),
+            voters: case.voters.iter().map(|(i, w)| cw3_fixed_multisig::msg::Voter { addr: actors[*i as usize % N_ACTORS].to_string(), weight: *w }).chain(silent_addrs.iter().zip(case.silent.iter()).map(|(a, w)| cw3_fixed_multisig::msg::Voter { addr: a.to_string(), weight: *w })).collect(),
             threshold: thr.to_threshold(),
             max_voting_period: period,
         };
@@ -665,7 +672,7 @@ pub fn run_mcase(prop: &str, case: &MCase, ctx: &mut CaseCtx) -> Result<(), Viol
         for (i, w) in &case.voters {
             m.insert(*i as usize % N_ACTORS, *w);
         }
-        let gmsg = cw4_group::msg::InstantiateMsg { admin: Some(admin.to_string()), members: m.iter().map(|(i, w)| Member { addr: actors[*i].to_string(), weight: *w }).collect() };
+        let gmsg = cw4_group::msg::InstantiateMsg { admin: Some(admin.to_string()), members: m.iter().map(|(i, w)| Member { addr: actors[*i].to_string(), weight: *w }).chain(silent_addrs.iter().zip(case.silent.iter()).map(|(a, w)| Member { addr: a.to_string(), weight: *w })).collect() };
         let g = match try_instantiate(&mut app, gcode, &faucet, &gmsg, "group") {
             Ok(a) => a,
             Err(_) => {
@@ -1093,6 +1100,7 @@ pub fn run_mcase(prop: &str, case: &MCase, ctx: &mut CaseCtx) -> Result<(), Viol
                     deposit_returned: false,
                     failed_execute_seen: false,
                     retried_ok: false,
+                    execute_succeeded: false,
                 });
             }
         }
@@ -1131,6 +1139,9 @@ pub fn run_mcase(prop: &str, case: &MCase, ctx: &mut CaseCtx) -> Result<(), Viol
         // ---------------- model updates after the oracles
         for i in newly_executed {
             models[i].executed = true;
+        }
+        if let Done::Execute { target: Some(i), ok: true, .. } = done {
+            models[i].execute_succeeded = true;
         }
         if let Done::Close { target: Some(i), ok: true } = done {
             models[i].closed = true;
@@ -1558,8 +1569,8 @@ fn oracle_c06(w: &World, pre: &Obs, post: &Obs, done: &Done, models: &mut [PMode
                         return Err(v(prop, "vote-ballot-mismatch", format!("{at}: a successful vote by {voter} added ballots {:?} to proposal {}", added, m.id)));
                     }
                     let pre_o = pre.props.iter().find(|p| p.id == m.id).unwrap();
-                    if pre_o.status == Status::Executed {
-                        return Err(v(prop, "vote-on-executed", format!("{at}: vote accepted on executed proposal {}", m.id)));
+                    if pre_o.status == Status::Executed || m.execute_succeeded {
+                        return Err(v(prop, "vote-on-executed", format!("{at}: vote accepted on proposal {} although an Execute of it already succeeded (status reported before the vote: {:?})", m.id, pre_o.status)));
                     }
                     if is_expired(&pre_o.expires, h, t) {
                         return Err(v(prop, "vote-after-expiry", format!("{at}: vote accepted on proposal {} after it expired ({:?})", m.id, pre_o.expires)));
@@ -1846,5 +1857,6 @@ pub fn decode_mcase(prop: &str, u: &mut arbitrary::Unstructured) -> MCase {
         };
         ops.push(op);
     }
-    MCase { flavour, voters, thr, period, ops }
+    let silent = if arb_bool(u, 1, 3) { (0..arb_below(u, 12)).map(|_| d_weight(u)).collect() } else { vec![] };
+    MCase { flavour, silent, voters, thr, period, ops }
 }
